@@ -133,8 +133,10 @@ StepDiff(e) ==
              wantCb == IF Has(sp, "cb") THEN sp.cb ELSE TRUE
              cmd == CASE sp.kind = "add" -> AddCmd(sp.x)
                       [] sp.kind = "rem" -> RemCmd(sp.x)
+                      [] sp.kind = "sad" -> AdCmd(sp.x)
+                      [] sp.kind = "srm" -> RmCmd(sp.x)
                       [] OTHER -> a[3]
-         IN IF sp.kind \in {"op", "boom", "add", "rem"}
+         IN IF sp.kind \in {"op", "boom", "add", "rem", "sad", "srm"}
             THEN CtxDiff(a[2], SubmitCtx(a[2], a[3], cmd, z, wantCb), chan, e) ELSE {"unmodelled-submit"}
     [] OTHER -> {}
 
